@@ -20,15 +20,17 @@ structure Sys where
   b : Broker := {}
   w : Work := {}
   links : ConnId → Option Link := fun _ => none
+  /-- the connection ids handed out so far (`Broker::add_connection` never hands one out twice) -/
+  used : List ConnId := []
 
 inductive SysEv where
-  /-- a client's transport comes up (the broker learns of it by an event of its own) -/
+  /-- a connection is added under an id not used before: the broker gets its `NewConnection`, the client starts -/
   | attach (c : ConnId) (version : Nat)
   /-- the client writes a request to its transport -/
   | clientSends (c : ConnId) (r : Req)
   /-- the broker handles the oldest request of `c` -/
   | brokerHandles (c : ConnId)
-  /-- any other event of `Broker::run` -/
+  /-- any other event of `Broker::run` (a connection's task ending, shutdown requests) -/
   | brokerEvent (e : Event)
   /-- the client handles the oldest message of its queue -/
   | clientHandles (c : ConnId)
@@ -42,8 +44,10 @@ def freshSerial (mon : CSt) (r : Req) : Bool :=
   | some (k, n) => !(pendingOf mon k).contains n
   | none => true
 
+/-- the events that have a system event of their own -/
 def Event.isMsg : Event → Bool
   | .msg .. => true
+  | .newConn .. => true
   | _ => false
 
 /-- what one turn of the broker puts into the queue of connection `c`, in order -/
@@ -59,7 +63,11 @@ def setLink (links : ConnId → Option Link) (c : ConnId) (l : Option Link) : Co
 /-- one event; `none` when it cannot happen in this state (or the broker has panicked) -/
 def sysStep (s : Sys) : SysEv → Option Sys
   | .attach c v =>
-    if (s.links c).isSome then none else some { s with links := setLink s.links c (some { mon := { version := v } }) }
+    if (s.links c).isSome || s.used.contains c then none else
+    match Broker.step s.b s.w (.newConn c v) with
+    | .error _ => none
+    | .ok (b, w, out) =>
+      some { b := b, w := w, links := setLink (deliver out s.links) c (some { mon := { version := v } }), used := c :: s.used }
   | .clientSends c r =>
     match s.links c with
     | none => none
@@ -76,12 +84,12 @@ def sysStep (s : Sys) : SysEv → Option Sys
       | r :: rest =>
         match Broker.step s.b s.w (.msg c r) with
         | .error _ => none
-        | .ok (b, w, out) => some { b := b, w := w, links := deliver out (setLink s.links c (some { l with up := rest })) }
+        | .ok (b, w, out) => some { s with b := b, w := w, links := deliver out (setLink s.links c (some { l with up := rest })) }
   | .brokerEvent e =>
     if Event.isMsg e then none else
     match Broker.step s.b s.w e with
     | .error _ => none
-    | .ok (b, w, out) => some { b := b, w := w, links := deliver out s.links }
+    | .ok (b, w, out) => some { s with b := b, w := w, links := deliver out s.links }
   | .clientHandles c =>
     match s.links c with
     | none => none
